@@ -277,6 +277,8 @@ func init() {
 		notBefore, notAfter, orgFromCfg, serverAuth := "absent", "absent", false, false
 		var verifyKeys []string
 		verifyNameIsKey := false
+		var dnsParamFn *ast.FuncDecl
+		dnsParam := ""
 		for _, fd := range reach {
 			// the identifier that indexes the cache map in this function
 			keyIdent := ""
@@ -317,12 +319,54 @@ func init() {
 								if src(kv.Key) == "DNSName" && keyIdent != "" && src(kv.Value) == keyIdent {
 									verifyNameIsKey = true
 								}
+								if src(kv.Key) == "DNSName" && keyIdent == "" {
+									// the options are built in a helper: its parameter must be fed the caller's cache key
+									dnsParamFn, dnsParam = fd, src(kv.Value)
+								}
 							}
 						}
 					}
 				}
 				return true
 			})
+		}
+		if !verifyNameIsKey && dnsParamFn != nil {
+			idx := -1
+			k := 0
+			for _, fl := range dnsParamFn.Type.Params.List {
+				for _, nm := range fl.Names {
+					if nm.Name == dnsParam {
+						idx = k
+					}
+					k++
+				}
+			}
+			for _, fd := range reach {
+				key := ""
+				ast.Inspect(fd.Body, func(n ast.Node) bool {
+					if ix, ok := n.(*ast.IndexExpr); ok && isCerts(ix) {
+						key = src(ix.Index)
+					}
+					return true
+				})
+				ast.Inspect(fd.Body, func(n ast.Node) bool {
+					c, ok := n.(*ast.CallExpr)
+					if !ok || idx < 0 || idx >= len(c.Args) || key == "" {
+						return true
+					}
+					name := ""
+					switch fn := c.Fun.(type) {
+					case *ast.SelectorExpr:
+						name = fn.Sel.Name
+					case *ast.Ident:
+						name = fn.Name
+					}
+					if name == dnsParamFn.Name.Name && src(c.Args[idx]) == key {
+						verifyNameIsKey = true
+					}
+					return true
+				})
+			}
 		}
 		sort.Strings(verifyKeys)
 		g.def("tmplNotBefore", "String", leanStr(notBefore))
@@ -354,21 +398,42 @@ func init() {
 			if hitVar == "" {
 				continue
 			}
+			// the guard: an `if` whose init or condition verifies the hit — `hit.Leaf.Verify(…)` directly, or a
+			// function of this package that does (an extracted helper) — and whose BODY holds the return
+			var hasVerify func(n ast.Node, depth int) bool
+			hasVerify = func(n ast.Node, depth int) bool {
+				found := false
+				ast.Inspect(n, func(m ast.Node) bool {
+					c, ok := m.(*ast.CallExpr)
+					if !ok || found {
+						return !found
+					}
+					name := ""
+					switch fn := c.Fun.(type) {
+					case *ast.SelectorExpr:
+						name = fn.Sel.Name
+					case *ast.Ident:
+						name = fn.Name
+					}
+					if name == "Verify" {
+						found = true
+					} else if d := decls[name]; d != nil && depth < 3 && hasVerify(d.Body, depth+1) {
+						found = true
+					}
+					return !found
+				})
+				return found
+			}
 			isVerifyGuard := func(is *ast.IfStmt) bool {
-				as, ok := is.Init.(*ast.AssignStmt)
-				if !ok || len(as.Rhs) != 1 {
+				if is.Init != nil && hasVerify(is.Init, 0) {
+					if cond, ok := is.Cond.(*ast.BinaryExpr); ok && cond.Op == token.EQL && src(cond.Y) == "nil" {
+						return true
+					}
+				}
+				if u, ok := is.Cond.(*ast.UnaryExpr); ok && u.Op == token.NOT {
 					return false
 				}
-				c, ok := as.Rhs[0].(*ast.CallExpr)
-				if !ok {
-					return false
-				}
-				sel, ok := c.Fun.(*ast.SelectorExpr)
-				if !ok || sel.Sel.Name != "Verify" || !strings.HasPrefix(src(sel.X), hitVar+".") {
-					return false
-				}
-				cond, ok := is.Cond.(*ast.BinaryExpr)
-				return ok && cond.Op == token.EQL && src(cond.Y) == "nil"
+				return hasVerify(is.Cond, 0)
 			}
 			var stack []ast.Node
 			ast.Inspect(fd.Body, func(n ast.Node) bool {
